@@ -97,7 +97,7 @@ func sampleOf(c *world.Case, out mon.Outcome, v *ref.Verdict) map[string]any {
 	return map[string]any{
 		"class": c.Class, "param": c.Param, "form": c.Form, "level": lvl(c), "expect": c.Expect,
 		"quote_len": len(c.Quote), "quote_head_hex": fmt.Sprintf("%x", c.Quote[:min(32, len(c.Quote))]),
-		"library": map[string]any{"accepted": out.Accepted, "err": out.Err, "fetched": out.URLs},
+		"library":   map[string]any{"accepted": out.Accepted, "err": out.Err, "fetched": out.URLs},
 		"reference": v.String(),
 	}
 }
@@ -126,7 +126,6 @@ func (v verifyTime) T() time.Time { return time.Unix(int64(v), 0).UTC() }
 type x509Cert = x509.Certificate
 
 func setProcs(n int) int { return runtime.GOMAXPROCS(n) }
-
 
 // shadow runs the case twice through an Options value that has already verified other cases of this
 // workload (whatever came before on this worker: same PKI with other CRLs / pools / collateral, or other
@@ -178,7 +177,6 @@ func enableShadow(x *mon.Ctx) {
 	x.Shadow, x.ShadowAll = true, true
 	x.SharedPool = make(chan any, 64)
 }
-
 
 // enableShadowForTwins turns the shadow run on only for cases that name their unbroken twin (TwinRef).
 func enableShadowForTwins(x *mon.Ctx) {
